@@ -6,8 +6,8 @@ from core import enc
 import gens
 
 SCHEMES = ["http", "https", "ws", "wss", "ftp", "file", "mailto", "", "HTTP", "hTTps", "a+b.c", "x", "git+ssh", "1a", "svn"]
-USERS = [None, "", "user", "u%20s", "us er", "u:s", "ü", "%41", "a@b", "%", "u%2", "U"]
-PASSWORDS = [None, "", "pw", "p%40w", "p:w", "p@w", "p w", "ä", "%zz"]
+USERS = [None, "", "user", "u%20s", "us er", "u:s", "ü", "%41", "a@b", "%", "u%2", "U", "%FF", "%C3%28", "%e2%82", "u%2fv"]
+PASSWORDS = [None, "", "pw", "p%40w", "p:w", "p@w", "p w", "ä", "%zz", "%FF", "%C3%28", "%E2%82", "%80x", "p%3aw"]
 REGNAMES = ["h", "example.com", "EXAMPLE.com", "a-b.c_d~e", "h.", "h..", "xn--tda.com", "a!$&'()*+,;=b", "sub.Example.ORG",
             "1.2.3", "256.1.1.1", "01.2.3.4", "1.2.3.4.", "a%20b", "a%2fb", "localhost"]
 IPV4 = ["127.0.0.1", "1.2.3.4", "255.255.255.255", "0.0.0.0"]
@@ -19,7 +19,8 @@ IDN = ["ü.com", "例え.jp", "bücher.example", "A_B.ü.com", "ß.de", "İ.com"
 PORTS = ["", ":", ":0", ":80", ":443", ":21", ":8080", ":65535", ":65536", ":abc", ":+1", ":1_0", ": 80", ":-1", ":٣", ":80:81", ":00080"]
 PATHS = ["", "/", "/a", "/a/b/", "/a/../b", "/./a", "/a/.", "/..", "/a/%2e%2E/b", "/a%2Fb", "/a b", "/é", "/%C3%A9", "/a;b=c", "/a:b@c",
          "a", "a/b", "../a", "./a", "a:b", "a%3Ab", "//a", "/a//b", "/%", "/%zz", "/a+b", "/a%2Bb", "/.a/b.", "/...", "/a.b.c", "/a.", "/.tar.gz",
-         "/a/b.txt", "/a%20b.txt", "/\udc80", "/a?b", "/%41%7e"]
+         "/a/b.txt", "/a%20b.txt", "/\udc80", "/a?b", "/%41%7e",
+         "/a%2fb", "/x/..%2f..%2fy", "/a%25b", "/a%2fb%25", "/doc.tar.", "/v1.2.tar.", "/a..", "/..a.", "/a.b.", "/%FF/x", "/c%C3/%A9"]
 QUERIES = [None, "", "a=1", "a=1&b=2", "a=1&a=2", "a", "a=", "=b", "&", "a=1&", "a=b=c", "a+b=c+d", "a%2Bb=%26", "a=%C3%A9", "a=%FF", "é=ü", "a;b=1",
            "a=1;b=2", "x=%3D%3d", "a=b#c", "a=%", "a=%2", "a b=c d", "a=1&&b=2", "?a=/:@", "a[]=1", "a=\udc80", "a=%00"]
 FRAGMENTS = [None, "", "frag", "a b", "%41", "é", "a#b", "a?b/c", "%", "%2f", "\udcff", "a%20b"]
